@@ -72,7 +72,7 @@ pub fn run_check(replay: Option<Value>) -> i32 {
         dim("direction", &["forward", "backward(reflected)"]),
         dim("jacobian", &["user", "finite-difference"]),
         dim("api", &["solve_ivp", "low-level builder"]),
-        dim("first_step", &["auto", "given"]),
+        dim("first_step", &["auto", "given", "given, four times the span (first attempts rejected, trial stages far out)"]),
         dim("stop", &["none", "interrupt/terminal early", "modified(x1)@2 (low-level only)", "interrupt/terminal late"]),
     ];
     lattice(&mut rep, "stats", &dims, only.as_deref(), |key, idx| {
@@ -83,7 +83,10 @@ pub fn run_check(replay: Option<Value>) -> i32 {
         let backward = idx[4] == 1;
         let user_jac = idx[5] == 0;
         let low = idx[6] == 1;
-        let fs_given = idx[7] == 1;
+        let fs_given = idx[7] >= 1;
+        if idx[7] == 2 && m == ivp::prelude::Method::RK4 {
+            return None;
+        }
         let stop = idx[8];
         if !crate::run::is_implicit(m) && !user_jac {
             return None; // Jacobian source is irrelevant for explicit methods
@@ -103,7 +106,8 @@ pub fn run_check(replay: Option<Value>) -> i32 {
         let mut c = Cfg::new(m, x0, xend, &p.y0).tol(tol, tol * 1e-2);
         c.user_jac = user_jac;
         if fs_given {
-            c.first_step = Some(if backward { -span / 64.0 } else { span / 64.0 });
+            let f = if idx[7] == 2 { 4.0 } else { 1.0 / 64.0 };
+            c.first_step = Some(if backward { -span * f } else { span * f });
         }
         let desc = json!({"key": key, "point": describe(&dims, idx), "cfg": c.json(&p.name)});
         let mut out = CaseOut::default();
